@@ -514,6 +514,7 @@ pub fn evaluate(ctx: &Ctx) -> Vec<Violation> {
     rule_c15(ctx, &mut out);
     rule_c06(ctx, &mut out);
     rule_c12(ctx, &mut out);
+    rule_c12_race(ctx, &mut out);
     rule_seq(ctx, &mut out);
     crate::oracle2::evaluate_more(ctx, &mut out);
     // Stable order, no duplicates of the same (rule, key).
@@ -1238,6 +1239,44 @@ fn rule_c12(ctx: &Ctx, out: &mut Vec<Violation>) {
                         }
                     }
                 }
+            }
+        }
+    }
+}
+
+/// C12.race: requests that race with a deletion never hang. Reported for every call on a
+/// subscription (the delete itself included) that never returned and overlapped a
+/// DeleteSubscription of that subscription.
+fn rule_c12_race(ctx: &Ctx, out: &mut Vec<Violation>) {
+    let m = ctx.m;
+    for (sub, dels) in m.sub_deletes.iter() {
+        for dc in dels {
+            let del = &m.calls[dc];
+            let mut hung: Vec<&Call> = Vec::new();
+            for c in m.calls.values() {
+                if !matches!(c.out, Some(Outcome::Hang)) {
+                    continue;
+                }
+                let on_sub = sub_of(c) == sub.as_str();
+                // a Publish to the subscription's topic is part of the same wait-for cycle
+                let on_topic = match (&c.req, m.sub_creates.get(sub).and_then(|cs| cs.first()).map(|cc| &m.calls[cc].req)) {
+                    (Req::Publish { topic, .. }, Some(Req::CreateSub { topic: t2, .. })) => topic == t2,
+                    _ => false,
+                };
+                if (on_sub || on_topic) && c.inv_seq < del.ret_seq_or_max() && del.inv_seq < c.ret_seq_or_max() {
+                    hung.push(c);
+                }
+            }
+            if !hung.is_empty() {
+                let kinds: BTreeSet<&str> = hung.iter().map(|c| req_kind(&c.req)).collect();
+                // how many requests were in flight on that subscription when the delete was invoked
+                let concurrent = m.calls.values().filter(|c| sub_of(c) == sub.as_str() && c.inv_seq <= del.inv_seq && c.ret_seq_or_max() > del.inv_seq).count();
+                let load = if concurrent >= 16 { "mailbox_saturated" } else { "few_requests" };
+                out.push(v(
+                    "C12.race_hang",
+                    format!("race_hang:{}:{}", load, kinds.iter().cloned().collect::<Vec<_>>().join("+")),
+                    format!("{} request(s) racing DeleteSubscription({}) never returned: {}", hung.len(), sub, hung.iter().take(5).map(|c| format!("#{} {}", c.id, req_kind(&c.req))).collect::<Vec<_>>().join(", ")),
+                ));
             }
         }
     }
